@@ -298,7 +298,11 @@ def run_iface(case):
                                f"{sorted(counters[s].calls.items())[:6]}")
                 if not out["ok"]:
                     break
-                h.update(repr([i for i, _ in got]).encode())
+                order = [i for i, _ in got]
+                # tf.data shuffles with its own unseeded generator: only the
+                # schedule-independent multiset enters the digest
+                h.update(repr(sorted(order) if iface == "tfdata" else
+                              order).encode())
                 stats["examples_delivered"] += len(got)
                 stats["shards_read"] += len(tables[s])
         probes["iface_" + iface] += 1
